@@ -198,6 +198,9 @@ M("c19-add-too-small","C19","compliance/election.go","\tdefer electionID.Add(2)"
 N("c19-n-explicit-flush","C19","compliance/mpls.go","\tdefer flushServer(c, t)","\tdefer func() { flushServer(c, t) }()",note="deferred closure calling flushServer")
 
 # ---------------- round 4 rules
+M("c09-undefined-redundancy-accepted","C09",S,"\tif p.Redundancy != spb.SessionParameters_SINGLE_PRIMARY {","\tif p.Redundancy == spb.SessionParameters_ALL_PRIMARY {","TABLE-CHECK-PARAMS",note="revert of fix bc8a3eb (one of three tests)")
+M("c09-undefined-acktype-accepted","C09",S,"\tif at := p.AckType; at != spb.SessionParameters_RIB_ACK && at != spb.SessionParameters_RIB_AND_FIB_ACK {","\tif at := p.AckType; false && at != spb.SessionParameters_RIB_ACK {","TABLE-CHECK-PARAMS")
+M("c14-failed-connect-leaves-exit-open","C14",C,"\t\tclose(c.sendExitCh)\n\t\treturn fmt.Errorf(\"cannot open Modify RPC, %v\", err)","\t\treturn fmt.Errorf(\"cannot open Modify RPC, %v\", err)","LIFECYCLE",note="revert of fix 7f38404")
 M("c01-lookup-key-rewritten","C01",R,"\treturn r.r.Afts.Ipv6Entry[prefix]","\treturn r.r.Afts.Ipv6Entry[fmt.Sprintf(\"%s\", prefix)+\"\"]","TABLE-KEY-IDENTITY")
 M("c06-readd-nexthop-parked","C06",R,"\tif _, err := r.doAddNH(","\tif r.nhExists(e.GetIndex()) && !explicitReplace && e.GetNextHop() == nil {\n\t\treturn false, nil, nil\n\t}\n\tif _, err := r.doAddNH(","HELD-ONLY-UNRESOLVED")
 M("c07-invalid-holder-skipped","C07",S,"\t\tif err := netInst.GetRIB(filter, msgCh, stopCh); err != nil {","\t\tif !netInst.IsValid() {\n\t\t\tcontinue\n\t\t}\n\t\tif err := netInst.GetRIB(filter, msgCh, stopCh); err != nil {","GET-SCOPE")
